@@ -91,6 +91,7 @@ func c17(c *core.Check) {
 	c17Computed(c)
 	c17ZeroAngles(c)
 	c17GradientBox(c)
+	c17ClipRestore(c)
 	c.Assume = []string{"float32/float64 conversions are treated as identity", "the group laws follow from the laws of 2x3 affine matrices once each routine equals its specification matrix (mathematics, not re-proved)"}
 
 	r1 := c.Rule("R1", "matrix package: Translation, Scaling, Rotation, Skew, Identity, New, Determinant, mult/Mul/Mul3, LeftMultBy, RightMultBy, Apply, Invert and the in-place Translate/Scale/Rotate/Skew have the specification normal forms", 16)
@@ -1060,5 +1061,65 @@ func c17GradientBox(c *core.Check) {
 	})
 	if n < 2 {
 		r.Anchor(fmt.Sprintf("svg.gradient.paint: compositions with matrix.Scaling (%d found, 2 confirmed by reading)", n))
+	}
+}
+
+// c17ClipRestore: after drawing a clip path, applyClipPath puts the transformation matrix back.  The backend's
+// Transform(m) applies m before the current matrix (CTM ← CTM·m), so the matrix that restores the old one is
+// CTM⁻¹·old: matrix.Mul(inverse of the current matrix, old matrix) — in that order.
+func c17ClipRestore(c *core.Check) {
+	p := c.Prog
+	r := c.Rule("R9", "the matrix is restored after a clip path: in applyClipPath the argument of the final Transform is matrix.Mul(current⁻¹, old) — first argument the matrix on which Invert was called, second the matrix read with GetTransform before the clip path was drawn (Transform composes on the right: CTM·(CTM⁻¹·old) = old; the other order is right only when the two commute)", 1)
+	fn := p.Lookup("svg.(*SVGImage).applyClipPath")
+	if fn == nil {
+		r.Anchor("svg.(*SVGImage).applyClipPath")
+		return
+	}
+	var inverted ssa.Value // the address Invert is called on
+	var first *ssa.Call    // the first GetTransform
+	core.Instrs(fn, func(in ssa.Instruction) {
+		call, ok := in.(*ssa.Call)
+		if !ok {
+			return
+		}
+		if cal := call.Call.StaticCallee(); cal != nil && cal.Name() == "Invert" && len(call.Call.Args) == 1 {
+			inverted = call.Call.Args[0]
+		}
+		if call.Call.IsInvoke() && call.Call.Method.Name() == "GetTransform" && first == nil {
+			first = call
+		}
+	})
+	n := 0
+	core.Instrs(fn, func(in ssa.Instruction) {
+		call, ok := in.(*ssa.Call)
+		if !ok || call.Call.StaticCallee() == nil || call.Call.StaticCallee().String() != "github.com/benoitkugler/webrender/matrix.Mul" || len(call.Call.Args) != 2 {
+			return
+		}
+		n++
+		fromInverted := func(v ssa.Value) bool {
+			ld, ok := v.(*ssa.UnOp)
+			return ok && inverted != nil && ld.X == inverted
+		}
+		isOld := func(v ssa.Value) bool {
+			if first == nil {
+				return false
+			}
+			if v == ssa.Value(first) {
+				return true
+			}
+			// spilled to a local and loaded back
+			if ld, ok := v.(*ssa.UnOp); ok {
+				for _, st := range core.StoresTo(ld.X) {
+					if st == ssa.Value(first) {
+						return true
+					}
+				}
+			}
+			return false
+		}
+		r.Cond(fromInverted(call.Call.Args[0]) && isOld(call.Call.Args[1]), "svg.applyClipPath | Transform(Mul(current⁻¹, old))", p.Pos(call.Pos()), "inverse of the current matrix first, old matrix second", "the restoring matrix is composed in the other order (old·current⁻¹): under a backend transform of (2 0 0 2 100 50) and a clip path whose rect is translated by 5, the matrix ends at (2 0 0 2 90 50) and the clipped shape is drawn 10 device units to the left")
+	})
+	if n == 0 {
+		r.Anchor("applyClipPath: matrix.Mul(…)")
 	}
 }
